@@ -181,6 +181,7 @@ func c05(w *World) {
 			w.Probe("continued_from_stored_counter")
 		}
 		lastTaskSeq := map[int]int{}
+		var prevTime time.Time
 		for k, m := range wire {
 			n, ok := GetInt(m.Raw, TagMsgSeqNum)
 			if !ok || n != start+k {
@@ -203,6 +204,12 @@ func c05(w *World) {
 				w.Violate("sending-time-format", "", fmt.Sprintf("34=%d carries 52=%q", n, ts))
 				continue
 			}
+			// numbers are handed out and times are taken in one critical section: along the
+			// sequence the send times can never go backwards
+			if tm.Before(prevTime) {
+				w.Violate("sending-time-order", "", fmt.Sprintf("34=%d carries 52=%s, earlier than the 52=%s of the message numbered before it: the time was not taken when the message was sent", n, ts, prevTime.Format("15:04:05.000")))
+			}
+			prevTime = tm
 			if tm.After(m.At.UTC()) {
 				w.Violate("sending-time-range", "after-arrival", fmt.Sprintf("34=%d carries 52=%s but arrived at %s", n, ts, m.At.UTC().Format("15:04:05.000")))
 			}
@@ -227,10 +234,7 @@ func c05(w *World) {
 			}
 		}
 		if len(byID) != 0 && len(w.Viol) == 0 {
-			for id := range byID {
-				w.Violate("sent-message-missing", "", fmt.Sprintf("Send returned nil for %s but it never reached the wire", id))
-				break
-			}
+			w.Violate("sent-message-missing", "", fmt.Sprintf("Send returned nil for %s (and %d more) but it never reached the wire", minKey(byID), len(byID)-1))
 		}
 		if count(wire, "0") > len(sends) {
 			w.Probe("library_heartbeats_interleaved")
@@ -256,4 +260,14 @@ func c05(w *World) {
 	}
 	simrt.Sleep(20 * time.Millisecond)
 	simrt.Settle()
+}
+
+func minKey(m map[string]*appSend) string {
+	best := ""
+	for k := range m {
+		if best == "" || k < best {
+			best = k
+		}
+	}
+	return best
 }
